@@ -1,0 +1,317 @@
+//go:build verif
+
+// Contracts for the verifier in /verif (comment-only file; compiled only with -tags verif).
+// TLS 1.3 client handshake (handshake_client_tls13.go): properties C12 (server selections must have been
+// offered), C17 (HelloRetryRequest), C18 (key share used for the shared secret).
+
+package tls
+
+// The error for a message of the wrong type is never nil (fmt.Errorf).
+//@ func unexpectedMessageError
+//@   property C12
+//@   modifies nothing
+//@   ensures ret != nil
+
+// sameBytes(a, b): equal contents (what "echoes the legacy session ID" means on the wire).
+//@ spec sameBytes(a, b) = len(a) == len(b) && forall j in 0..len(a): a[j] == b[j]
+
+// C12: the TLS 1.3 handshake continues past a ServerHello / HelloRetryRequest only if
+//  - the selected version is TLS 1.3 (supported_versions) and the legacy version field is TLS 1.2,
+//  - the legacy session id is echoed byte for byte,
+//  - the compression method is null,
+//  - the cipher suite is one of the ids in the ClientHello and is a TLS 1.3 suite; that suite's id is what
+//    ConnectionState.CipherSuite reports (c.cipherSuite),
+//  - no ALPN (and no other TLS 1.2-only extension) is present in the ServerHello itself.
+// (*Conn).sendAlert havocs the heap (trusted contract in verif_contracts_cert.go has no frame), so the frame of
+// the accepting path is stated explicitly in `kept`.
+//@ func (*clientHandshakeStateTLS13).checkServerHelloOrHRR
+//@   property C12 C17
+//@   let sh = hs.serverHello
+//@   let ch = hs.hello
+//@   let c = hs.c
+//@   let suite0 = hs.suite
+//@   requires suites13OK()
+//@   requires hs != nil && hs.c != nil && hs.hello != nil && hs.serverHello != nil
+//@   ensures version: ret == nil ==> sh.supportedVersion == VersionTLS13 && sh.vers == VersionTLS12
+//@   ensures sessionid: ret == nil ==> sameBytes(ch.sessionId, sh.sessionId)
+//@   ensures compression: ret == nil ==> sh.compressionMethod == compressionNone && compressionNone == 0
+//@   ensures suite_offered: ret == nil ==> among(ch.cipherSuites, sh.cipherSuite)
+//@   ensures suite_tls13: ret == nil ==> hs.suite != nil && hs.suite.id == sh.cipherSuite
+//@   note suite_tls13: hs.suite has static type *cipherSuiteTLS13; membership of the object in the table cipherSuitesTLS13 is not exported by the contract of mutualCipherSuiteTLS13 (verif_contracts_hs.go has no `elem` clause for it)
+//@   ensures suite_reported: ret == nil ==> c.cipherSuite == sh.cipherSuite
+//@   ensures suite_unchanged: ret == nil && suite0 != nil ==> hs.suite == suite0
+//@   ensures noalpn: ret == nil ==> len(sh.alpnProtocol) == 0 && !sh.ocspStapling && !sh.ticketSupported && !sh.extendedMasterSecret && !sh.secureRenegotiationSupported && len(sh.secureRenegotiation) == 0 && len(sh.scts) == 0
+//@   ensures reject_version: old(sh.supportedVersion) != VersionTLS13 ==> ret != nil
+//@   ensures reject_sessionid: !old(sameBytes(ch.sessionId, sh.sessionId)) ==> ret != nil
+//@   ensures reject_compression: old(sh.compressionMethod) != 0 ==> ret != nil
+//@   ensures reject_suite: !old(among(ch.cipherSuites, sh.cipherSuite)) ==> ret != nil
+//@   ensures kept: ret == nil ==> hs.c == c && hs.hello == ch && hs.serverHello == sh
+
+// The closure passed to slices.ContainsFunc in processServerHello: "this offered key share is for the group of
+// the server's share". hs is the captured variable (a cell holding the receiver).
+//@ func (*clientHandshakeStateTLS13).processServerHello$1
+//@   property C12
+//@   requires hs != nil && *hs != nil && (*hs).serverHello != nil
+//@   pure
+//@   ensures ret <==> ks.group == (*hs).serverHello.serverShare.group
+
+// C12: a ServerHello is accepted only if its key share is for a group the ClientHello sent a share for (and it is
+// not a second HelloRetryRequest), and a selected PSK identity is an index into the offered identities
+// (selected_identity == len(identities) is out of range and must be rejected).
+//@ func (*clientHandshakeStateTLS13).processServerHello
+//@   property C12
+//@   let sh = hs.serverHello
+//@   let ch = hs.hello
+//@   requires suites13OK()
+//@   requires hs != nil && hs.c != nil && hs.hello != nil && hs.serverHello != nil && hs.suite != nil
+//@   ensures nothrr: ret == nil ==> !sameBytes(old(sh.random), old(helloRetryRequestRandom))
+//@   ensures group_offered: ret == nil ==> exists i in 0..len(old(ch.keyShares)): old(ch.keyShares[i].group) == old(sh.serverShare.group)
+//@   ensures group_reject: !old(exists i in 0..len(ch.keyShares): ch.keyShares[i].group == sh.serverShare.group) ==> ret != nil
+//@   ensures psk_index: ret == nil && old(sh.selectedIdentityPresent) ==> old(sh.selectedIdentity) < len(old(ch.pskIdentities))
+//@   ensures psk_reject: old(sh.selectedIdentityPresent) && old(sh.selectedIdentity) >= len(old(ch.pskIdentities)) ==> ret != nil
+
+// C12: the handshake continues past EncryptedExtensions only if the server's ALPN selection is empty or one of
+// the protocols of the ClientHello; that selection is what ConnectionState.NegotiatedProtocol reports
+// (c.clientProtocol). (*Conn).readHandshake (upstream record layer, not under contract) is assumed not to touch the
+// handshake state object and the ClientHello (`hskept`, frame-only assumption).
+//@ func (*clientHandshakeStateTLS13).readServerParameters
+//@   property C12
+//@   let c = hs.c
+//@   let ch = hs.hello
+//@   let offered = hs.hello.alpnProtocols
+//@   requires hs != nil && hs.c != nil && hs.hello != nil && hs.serverHello != nil
+//@   requires hs.uconn != nil ==> hs.uconn.Conn == hs.c && hs.c.config != nil
+//@   requires hs.hello.earlyData ==> hs.session != nil
+//@   at after call readHandshake#0: assume hskept: hs.c == c && hs.hello == ch && hs.serverHello == old(hs.serverHello) && hs.uconn == old(hs.uconn) && hs.session == old(hs.session) && (hs.uconn != nil ==> hs.uconn.Conn == c) && c.config == old(c.config) && ch.earlyData == old(ch.earlyData) && ch.alpnProtocols == offered && forall j in 0..len(offered): offered[j] == old(offered[j])
+//@   at after call readHandshake#0: assume fresh_msg: istype(res0, *encryptedExtensionsMsg) ==> res0.(*encryptedExtensionsMsg) != nil
+//@   note fresh_msg: unmarshalHandshakeMessage allocates the message with new(); it is never a typed nil pointer
+//@   note hskept: readHandshake reads records from the connection, feeds the transcript hash and returns a freshly decoded message; it has no access to the clientHandshakeStateTLS13 object or the ClientHello message
+//@   at before call checkALPN#0: assert alpn_args: arg0 == offered && arg1 == encryptedExtensions.alpnProtocol
+//@   ensures alpn_offered: ret == nil ==> c.clientProtocol == "" || exists i in 0..len(offered): old(offered[i]) == c.clientProtocol
+//@   ensures alpn_checked: ret == nil ==> called(checkALPN, 0) && callres(checkALPN, 0) == nil && c.clientProtocol == callarg(checkALPN, 0, 1)
+
+// TLS <= 1.2 resumption test: the server echoed the (non-nil) session id of a ClientHello that carried a session.
+//@ func (*clientHandshakeState).serverResumedSession
+//@   property C12
+//@   requires hs != nil && hs.hello != nil && hs.serverHello != nil
+//@   modifies nothing
+//@   ensures ret <==> hs.session != nil && !isnil(hs.hello.sessionId) && sameBytes(hs.serverHello.sessionId, hs.hello.sessionId)
+
+// C12 (TLS <= 1.2): the handshake continues past the ServerHello only with an offered cipher suite (via
+// pickCipherSuite), the null compression method and an ALPN protocol that is empty or was offered; the accepted
+// values are what ConnectionState reports (c.cipherSuite, c.clientProtocol).
+// pickCipherSuite's contract (verif_contracts_hs.go) has no frame because it calls sendAlert; `picked_frame` assumes
+// that its accepting path writes nothing but hs.suite and c.cipherSuite (it consists of exactly these two stores).
+//@ func (*clientHandshakeState).processServerHello
+//@   property C12
+//@   let c = hs.c
+//@   let ch = hs.hello
+//@   let sh = hs.serverHello
+//@   let offered = hs.hello.alpnProtocols
+//@   let suites = hs.hello.cipherSuites
+//@   requires suitesOK()
+//@   requires hs != nil && hs.c != nil && hs.hello != nil && hs.serverHello != nil
+//@   at after call pickCipherSuite#0: assume picked_frame: res == nil ==> hs.c == c && hs.hello == ch && hs.serverHello == sh && hs.session == old(hs.session) && sh.compressionMethod == old(sh.compressionMethod) && sh.alpnProtocol == old(sh.alpnProtocol) && sh.cipherSuite == old(sh.cipherSuite) && ch.alpnProtocols == offered && (forall j in 0..len(offered): offered[j] == old(offered[j])) && ch.cipherSuites == suites && (forall j in 0..len(suites): suites[j] == old(suites[j]))
+//@   ensures compression: ret1 == nil ==> old(sh.compressionMethod) == compressionNone && compressionNone == 0
+//@   ensures suite_offered: ret1 == nil ==> exists i in 0..len(suites): old(suites[i]) == old(sh.cipherSuite)
+//@   ensures suite_reported: ret1 == nil ==> c.cipherSuite == old(sh.cipherSuite)
+//@   ensures alpn_offered: ret1 == nil ==> c.clientProtocol == old(sh.alpnProtocol) && (c.clientProtocol == "" || exists i in 0..len(offered): old(offered[i]) == c.clientProtocol)
+//@   ensures reject_compression: old(sh.compressionMethod) != 0 ==> ret1 != nil
+//@   ensures reject_suite: !old(among(suites, sh.cipherSuite)) ==> ret1 != nil
+//@   ensures reject_alpn: old(sh.alpnProtocol) != "" && !old(among(offered, sh.alpnProtocol)) ==> ret1 != nil
+//@   ensures resumed_only_ok: ret0 ==> ret1 == nil
+
+// ---------------------------------------------------------------------------------------------
+// C17: HelloRetryRequest.
+
+// transcriptMsg (upstream, handshake_messages.go) feeds the message's wire bytes to the hash. It writes nothing
+// else, except that the marshal methods of the two uTLS message types cache their encoding in the `raw` field
+// (all other marshal methods and originalBytes only read the message). Frame only; not verified.
+//@ trusted func transcriptMsg
+//@   modifies ghost(hmacmsg, h), msg.(*utlsCompressedCertificateMsg).raw, msg.(*utlsClientEncryptedExtensionsMsg).raw
+
+// generateECDHEKey / curveForCurveID: contracts in verif_contracts_preset.go (a key belongs to the classical group g iff
+// its public key encoding has length grouplen(g): 32/65/97/133 are pairwise distinct); crypto/ecdh is symbolic,
+// see /verif/contracts/trusted/preset.vc.
+
+// The closure passed to slices.ContainsFunc in processHelloRetryRequest: "a share for the requested group was
+// already sent". curveID is the captured variable.
+//@ func (*clientHandshakeStateTLS13).processHelloRetryRequest$1
+//@   property C17
+//@   requires curveID != nil
+//@   pure
+//@   ensures ret <==> ks.group == *curveID
+
+// computeAndUpdatePSK (upstream, handshake_client.go): recomputes the PSK binder over the hello and installs it.
+// Frame only; not verified (the binder computation goes through a function value).
+//@ trusted func computeAndUpdatePSK
+//@   modifies m.pskBinders, ghost(hmacmsg, transcript)
+
+//@ spec isCK(x) = istype(x, *CookieExtension)
+//@ spec ksOf(x) = x.(*KeyShareExtension).KeyShares
+//@ spec ckOf(x) = x.(*CookieExtension).Cookie
+
+// C17 (and C12 for the group): a HelloRetryRequest is refused when it changes nothing (no group, no cookie), when it
+// selects a group that is not in supported_groups, when it selects a group a share was already sent for, or when it
+// carries a server share. Otherwise (scope: no ECH, `requires hs.echContext == nil`) the second ClientHello carries
+//  - exactly one key share, for the selected group, holding the public key of a private key generated in this call
+//    (newshare_*), which is the key kept for the key agreement (newkey_kept),
+//  - the server's cookie (cookie_hello); and for a hello built by uTLS (uconn.Extensions is what gets marshaled):
+//    every KeyShareExtension holds exactly the hello's shares and there is one (ext_keyshare_*), a CookieExtension
+//    echoing the cookie exists (ext_cookie), and the last extension (PSK, if any) stays last (ext_last).
+// Frames of uncontracted callees with a whole-heap effect are stated as "assert before / assume after" pairs of the
+// same formula (prng_*, marshal_*, read_*): the callee is assumed not to touch the handshake state named there.
+//@ func (*clientHandshakeStateTLS13).processHelloRetryRequest
+//@   property C17 C12
+//@   let c = hs.c
+//@   let ch = hs.hello
+//@   let sh = hs.serverHello
+//@   let uc = hs.uconn
+//@   let g = hs.serverHello.selectedGroup
+//@   let cookie = hs.serverHello.cookie
+//@   let E0 = hs.uconn.Extensions
+//@   let rd = ite(hs.c.config.Rand != nil, hs.c.config.Rand, rand.Reader)
+//@   requires suites13OK()
+//@   requires hs != nil && hs.c != nil && hs.c.config != nil && hs.hello != nil && hs.serverHello != nil && hs.suite != nil && hs.transcript != nil
+//@   requires noech: hs.echContext == nil
+//@   requires rd != nil
+//@   requires len(hs.hello.pskIdentities) > 0 ==> hs.session != nil
+//@   requires hs.uconn != nil ==> hs.uconn.HandshakeState.Hello != nil
+//@   requires typed: hs.uconn != nil ==> forall j in 0..len(E0): (isKS(E0[j]) ==> E0[j].(*KeyShareExtension) != nil) && (isCK(E0[j]) ==> E0[j].(*CookieExtension) != nil)
+//@   assume-pure time Sub Unix
+//@   opaque tls.(*UConn).MarshalClientHelloNoECH
+//@   note opaque: the contract of MarshalClientHelloNoECH (verif_contracts_marshal.go) is not used here: its precondition `walk` constrains the global uninterpreted function extSum for ONE extension list, which a caller that changes the list (cookie insertion) cannot re-establish; its two panic-freedom preconditions are asserted at the call instead (marshal_nonnil, marshal_padnonnil)
+//@   requires extnonnil: hs.uconn != nil ==> forall j in 0..len(E0): E0[j] != nil && (ispad(E0[j]) ==> E0[j].(*UtlsPaddingExtension) != nil)
+//@   ensures reject_unnecessary: old(g == 0 && isnil(sh.cookie)) ==> ret != nil
+//@   ensures reject_unoffered_group: old(g != 0 && !among(ch.supportedCurves, g)) ==> ret != nil
+//@   ensures reject_share_already_sent: old(g != 0 && exists i in 0..len(ch.keyShares): ch.keyShares[i].group == g) ==> ret != nil
+//@   ensures reject_share_in_hrr: old(sh.serverShare.group != 0) ==> ret != nil
+//@   ensures second_hello_sent: ret == nil ==> called(writeHandshakeRecord, 0) && called(readHandshake, 0)
+//@   ensures second_sh_checked: ret == nil ==> called(checkServerHelloOrHRR, 0) && callres(checkServerHelloOrHRR, 0) == nil
+//@   at before call PublicKey#0: assert newkey_fresh: arg0 == key && fresh(key) && keyOfGroup(key, g) && g != 0
+//@   at before call Bytes#0: assert newkey_pub: arg0 == callres(PublicKey, 0)
+//@   at before call writeHandshakeRecord#0: assert sent_hello: arg0 == c && arg1.(*clientHelloMsg) == ch && hs.hello == ch && arg2 == hs.transcript
+//@   at before call writeHandshakeRecord#0: assert newshare_one: g != 0 ==> len(ch.keyShares) == 1 && ch.keyShares[0].group == g && ch.keyShares[0].data == callres(Bytes, 0)
+//@   at before call writeHandshakeRecord#0: assert newkey_kept: g != 0 ==> hs.keyShareKeys != nil && hs.keyShareKeys.curveID == g && hs.keyShareKeys.ecdhe == callarg(PublicKey, 0, 0) && isnil(hs.keyShareKeys.mlkem)
+//@   at before call writeHandshakeRecord#0: assert oldshares_kept: g == 0 ==> ch.keyShares == old(ch.keyShares)
+//@   at before call writeHandshakeRecord#0: assert cookie_hello: !isnil(cookie) ==> ch.cookie == cookie
+//@   at before call MarshalClientHelloNoECH#0: assert ins_len: called(newPRNG, 0) ==> len(uc.Extensions) == len(E0) + 1 && 0 <= callres(Intn, 0) && callres(Intn, 0) < len(E0)
+//@   at before call MarshalClientHelloNoECH#0: assert ins_at: called(newPRNG, 0) ==> isCK(uc.Extensions[callres(Intn, 0)]) && uc.Extensions[callres(Intn, 0)].(*CookieExtension) != nil && ckOf(uc.Extensions[callres(Intn, 0)]) == cookie && len(cookie) > 0
+//@   at before call MarshalClientHelloNoECH#0: assert ins_before_inplace: called(newPRNG, 0) && len(E0) < cap(E0) ==> forall j in 0..callres(Intn, 0): uc.Extensions[j] == old(E0[j])
+//@   at before call MarshalClientHelloNoECH#0: assert ins_before_realloc: called(newPRNG, 0) && len(E0) >= cap(E0) ==> forall j in 0..callres(Intn, 0): uc.Extensions[j] == old(E0[j])
+//@   at before call MarshalClientHelloNoECH#0: assert ins_after_inplace: called(newPRNG, 0) && len(E0) < cap(E0) ==> forall j in callres(Intn, 0)+1..len(uc.Extensions): uc.Extensions[j] == old(E0[j-1])
+//@   at before call MarshalClientHelloNoECH#0: assert ins_after_realloc: called(newPRNG, 0) && len(E0) >= cap(E0) ==> forall j in callres(Intn, 0)+1..len(uc.Extensions): uc.Extensions[j] == old(E0[j-1])
+//@   at before call MarshalClientHelloNoECH#0: assert ins_after2_inplace: called(newPRNG, 0) && len(E0) < cap(E0) ==> forall j in callres(Intn, 0)..len(E0): uc.Extensions[j+1] == old(E0[j])
+//@   at before call MarshalClientHelloNoECH#0: assert ins_after2_realloc: called(newPRNG, 0) && len(E0) >= cap(E0) ==> forall j in callres(Intn, 0)..len(E0): uc.Extensions[j+1] == old(E0[j])
+//@   note ins_*: shape of uconn.Extensions after the cookie insertion at index Intn(len-2): one longer, the new CookieExtension at that index, everything else in order (_inplace: the outer append writes into the old backing array, _realloc: it allocates)
+//@   at before call MarshalClientHelloNoECH#0: assert marshal_nonnil: forall j in 0..len(uc.Extensions): uc.Extensions[j] != nil
+//@   at before call MarshalClientHelloNoECH#0: assert marshal_padnonnil: forall j in 0..len(uc.Extensions): ispad(uc.Extensions[j]) ==> uc.Extensions[j].(*UtlsPaddingExtension) != nil
+//@   at before call MarshalClientHelloNoECH#0: assert ext_keyshare_all: !called(newPRNG, 0) ==> (forall j in 0..len(uc.Extensions): isKS(uc.Extensions[j]) ==> ksMap(ch.keyShares, ksOf(uc.Extensions[j])))
+//@   at before call MarshalClientHelloNoECH#0: assert ext_keyshare_all_ins: called(newPRNG, 0) ==> (forall j in 0..len(uc.Extensions): isKS(uc.Extensions[j]) ==> ksMap(ch.keyShares, ksOf(uc.Extensions[j])))
+//@   at before call MarshalClientHelloNoECH#0: assert ext_keyshare_present: !called(newPRNG, 0) ==> (exists j in 0..len(uc.Extensions): isKS(uc.Extensions[j]))
+//@   at before call MarshalClientHelloNoECH#0: assert ext_keyshare_present_ins: called(newPRNG, 0) ==> (exists j in 0..len(uc.Extensions): isKS(uc.Extensions[j]))
+//@   at before call MarshalClientHelloNoECH#0: assert ext_cookie: !called(newPRNG, 0) ==> (len(cookie) > 0 ==> exists j in 0..len(uc.Extensions): isCK(uc.Extensions[j]) && ckOf(uc.Extensions[j]) == cookie)
+//@   at before call MarshalClientHelloNoECH#0: assert ext_cookie_ins: called(newPRNG, 0) ==> (len(cookie) > 0 ==> exists j in 0..len(uc.Extensions): isCK(uc.Extensions[j]) && ckOf(uc.Extensions[j]) == cookie)
+//@   at before call MarshalClientHelloNoECH#0: assert ext_last: !called(newPRNG, 0) ==> (len(uc.Extensions) >= 1 && len(E0) >= 1 && uc.Extensions[len(uc.Extensions)-1] == old(E0[len(E0)-1]))
+//@   at before call MarshalClientHelloNoECH#0: assert ext_last_ins: called(newPRNG, 0) ==> (len(uc.Extensions) >= 1 && len(E0) >= 1 && uc.Extensions[len(uc.Extensions)-1] == old(E0[len(E0)-1]))
+//@   at before call MarshalClientHelloNoECH#0: assert ext_newshare: g != 0 ==> len(ch.keyShares) == 1 && ch.keyShares[0].group == g && ch.keyShares[0].data == callres(Bytes, 0)
+//@   at before call MarshalClientHelloNoECH#0: assert marshal_recv: arg0 == uc && hs.uconn == uc
+//@   at before call newPRNG#0: assert prng_frame: hs.c == c && hs.hello == ch && hs.serverHello == sh && hs.uconn == uc && uc != nil && uc.HandshakeState.Hello != nil && hs.echContext == nil && sh.cookie == cookie && uc.Extensions == E0 && (forall j in 0..len(E0): E0[j] == old(E0[j])) && (exists j in 0..len(E0): isKS(E0[j])) && (forall j in 0..len(E0): !isCK(E0[j])) && (forall j in 0..len(E0): E0[j] != nil && (ispad(E0[j]) ==> E0[j].(*UtlsPaddingExtension) != nil)) && (forall j in 0..len(E0): isKS(E0[j]) ==> ksMap(ch.keyShares, ksOf(E0[j]))) && (g != 0 ==> len(ch.keyShares) == 1 && ch.keyShares[0].group == g && ch.keyShares[0].data == callres(Bytes, 0)) && (g != 0 ==> hs.keyShareKeys != nil && hs.keyShareKeys.curveID == g && hs.keyShareKeys.ecdhe == callarg(PublicKey, 0, 0) && isnil(hs.keyShareKeys.mlkem)) && (g == 0 ==> ch.keyShares == old(ch.keyShares)) && (!isnil(cookie) ==> ch.cookie == cookie)
+//@   at after call newPRNG#0: assume prng_frame: hs.c == c && hs.hello == ch && hs.serverHello == sh && hs.uconn == uc && uc != nil && uc.HandshakeState.Hello != nil && hs.echContext == nil && sh.cookie == cookie && uc.Extensions == E0 && (forall j in 0..len(E0): E0[j] == old(E0[j])) && (exists j in 0..len(E0): isKS(E0[j])) && (forall j in 0..len(E0): !isCK(E0[j])) && (forall j in 0..len(E0): E0[j] != nil && (ispad(E0[j]) ==> E0[j].(*UtlsPaddingExtension) != nil)) && (forall j in 0..len(E0): isKS(E0[j]) ==> ksMap(ch.keyShares, ksOf(E0[j]))) && (g != 0 ==> len(ch.keyShares) == 1 && ch.keyShares[0].group == g && ch.keyShares[0].data == callres(Bytes, 0)) && (g != 0 ==> hs.keyShareKeys != nil && hs.keyShareKeys.curveID == g && hs.keyShareKeys.ecdhe == callarg(PublicKey, 0, 0) && isnil(hs.keyShareKeys.mlkem)) && (g == 0 ==> ch.keyShares == old(ch.keyShares)) && (!isnil(cookie) ==> ch.cookie == cookie)
+//@   note prng_frame: newPRNG (contract in verif_contracts_roller.go has no frame) only reads crypto/rand and allocates the generator
+//@   at before call MarshalClientHelloNoECH#0: assert marshal_frame: hs.c == c && hs.hello == ch && hs.serverHello == sh && hs.uconn == uc && uc.HandshakeState.Hello != nil && hs.echContext == nil && (g != 0 ==> len(ch.keyShares) == 1 && ch.keyShares[0].group == g && ch.keyShares[0].data == callres(Bytes, 0)) && (g != 0 ==> hs.keyShareKeys != nil && hs.keyShareKeys.curveID == g && hs.keyShareKeys.ecdhe == callarg(PublicKey, 0, 0) && isnil(hs.keyShareKeys.mlkem)) && (g == 0 ==> ch.keyShares == old(ch.keyShares)) && (!isnil(cookie) ==> ch.cookie == cookie)
+//@   at after call MarshalClientHelloNoECH#0: assume marshal_frame: hs.c == c && hs.hello == ch && hs.serverHello == sh && hs.uconn == uc && uc.HandshakeState.Hello != nil && hs.echContext == nil && (g != 0 ==> len(ch.keyShares) == 1 && ch.keyShares[0].group == g && ch.keyShares[0].data == callres(Bytes, 0)) && (g != 0 ==> hs.keyShareKeys != nil && hs.keyShareKeys.curveID == g && hs.keyShareKeys.ecdhe == callarg(PublicKey, 0, 0) && isnil(hs.keyShareKeys.mlkem)) && (g == 0 ==> ch.keyShares == old(ch.keyShares)) && (!isnil(cookie) ==> ch.cookie == cookie)
+//@   note marshal_frame: MarshalClientHelloNoECH (u_conn.go, not under contract) serialises uconn.Extensions into uconn.HandshakeState.Hello.Raw (and adjusts a padding extension); it does not write the private hello, the handshake state object or the key share keys
+//@   at before call writeHandshakeRecord#0: assert write_frame: hs.c == c && hs.hello != nil
+//@   at after call writeHandshakeRecord#0: assume write_frame: hs.c == c && hs.hello != nil
+//@   at before call readHandshake#0: assert read_frame: hs.c == c && hs.hello != nil
+//@   at after call readHandshake#0: assume read_frame: hs.c == c && hs.hello != nil
+//@   at after call readHandshake#0: assume tables: suites13OK()
+//@   note tables: cipherSuitesTLS13 is written by package initialisers only (the whole-heap havoc of the uncontracted record-layer calls includes package variables)
+//@   at after call readHandshake#0: assume fresh_msg: istype(res0, *serverHelloMsg) ==> res0.(*serverHelloMsg) != nil
+//@   note read_frame: writeHandshakeRecord/readHandshake (record layer) do not write the handshake state object; the cipher suite table is written by package initialisers only
+//@   note dead returns (cover:returnK unsat): the returns inside the ECH branches are unreachable under `noech`; `return fmt.Errorf("cookieIndex >= len(hs.uconn.Extensions) ...")` (line 430) is dead code: a KeyShareExtension was found, so len(Extensions) >= 1, and Intn(len-2) is 0 or < len-2
+//@   loop 0 invariant -1 <= $rangeindex && $rangeindex < len(E0)
+//@   loop 0 invariant keyShareExtFound <==> exists j in 0..$k: isKS(E0[j])
+//@   loop 0 invariant forall j in 0..$k: isKS(E0[j]) ==> ksMap(ch.keyShares, ksOf(E0[j]))
+//@   loop 1 invariant -1 <= $rangeindex && $rangeindex < len(E0)
+//@   loop 1 invariant cookieFound <==> exists j in 0..$k: isCK(E0[j])
+//@   loop 1 invariant forall j in 0..$k: isCK(E0[j]) ==> ckOf(E0[j]) == cookie
+//@   loop 1 invariant forall j in 0..len(E0): isKS(E0[j]) ==> ksMap(ch.keyShares, ksOf(E0[j]))
+
+// ---------------------------------------------------------------------------------------------
+// C18: which private key is used for the shared secret.
+
+// getSharedKey (uTLS helper): ECDH of `key` with the peer's share. It can only succeed when the peer's share has the
+// encoding length of the key's own curve (crypto/ecdh is symbolic: /verif/contracts/trusted/hs13.vc, preset.vc).
+//@ func getSharedKey
+//@   property C18
+//@   requires key != nil
+//@   modifies nothing
+//@   ensures err: ret1 != nil ==> isnil(ret0)
+//@   ensures ok: ret1 == nil ==> fresh(ret0)
+//@   ensures curve: ret1 == nil ==> len(peerData) == ecdh_publen(ecdh_pub(val(key)))
+
+// Installing a TLS 1.3 traffic secret writes the half connection only (the key derivation and the AEAD constructor
+// only compute; they are reached through function values).
+//@ func (*halfConn).setTrafficSecret
+//@   property C18
+//@   requires hc != nil && suite != nil
+//@   assume-pure trafficKey aead
+//@   modifies hc.trafficSecret, hc.level, hc.cipher, hc.seq
+//@   ensures hc.trafficSecret == secret && hc.level == level
+//@   ensures forall j in 0..8: hc.seq[j] == 0
+//@   loop 0 invariant -1 <= $rangeindex && $rangeindex < 8
+//@   loop 0 invariant forall j in 0..$k: hc.seq[j] == 0
+//@   loop 0 invariant hc.trafficSecret == secret && hc.level == level
+
+// keyOfGroup(k, g): private key k was generated for the classical group g (see generateECDHEKey: the public key of a
+// key generated for g has length grouplen(g), and the four lengths are distinct).
+//@ spec keyOfGroup(k, g) = ecdh_publen(ecdh_pub(val(k))) == grouplen(g)
+
+// C18: the shared secret is computed with the private key that belongs to the group the server selected:
+//  - classical group g: ECDH with the client's key for g  (ecdhe_key_of_group),
+//  - X25519MLKEM768 / X25519Kyber768Draft00: ML-KEM decapsulation with keyShareKeys.mlkem of the ciphertext part, and
+//    X25519 with the hybrid share's own X25519 key (mlkemEcdhe when the hello was built by uTLS, ecdhe when built by
+//    crypto/tls, which reuses one X25519 key), on the X25519 part of the server share.
+// Preconditions = what the callers establish: `offered` is the postcondition group_offered of processServerHello;
+// `first_classical`, `later_classical` and `map_sound` are the state (*UConn).ApplyPreset leaves (u_parrots.go:
+// keyShareKeys.ecdhe is the key generated for the FIRST classical key share of the KeyShareExtension, the key of every
+// further classical share is in keyShareKeys.ecdheKeys under its group), which also covers crypto/tls's makeClientHello
+// (at most one classical share, nil map).
+// History: before fix 99e3805 only the first classical key was kept and used, so with key shares [X25519, P-256]
+// (HelloFirefox_65 ... _120) a server selecting P-256 made the handshake abort with "tls: invalid server key share".
+//@ func (*clientHandshakeStateTLS13).establishHandshakeKeys
+//@   property C18
+//@   let c = hs.c
+//@   let sh = hs.serverHello
+//@   let grp = hs.serverHello.serverShare.group
+//@   let data = hs.serverHello.serverShare.data
+//@   let keys = hs.keyShareKeys
+//@   let ks = hs.hello.keyShares
+//@   let byUtls = hs.uconn != nil && hs.uconn.clientHelloBuildStatus == BuildByUtls
+//@   requires hs != nil && hs.c != nil && hs.c.config != nil && hs.hello != nil && hs.serverHello != nil && hs.suite != nil && hs.transcript != nil
+//@   requires hs.keyShareKeys != nil && hs.keyShareKeys.ecdhe != nil
+//@   requires hs.usingPSK ==> hs.earlySecret != nil
+//@   requires hybridkeys: hs.keyShareKeys.mlkem != nil && byUtls ==> hs.keyShareKeys.mlkemEcdhe != nil
+//@   requires offered: exists i in 0..len(ks): ks[i].group == grp
+//@   requires first_classical: forall i in 0..len(ks): classical(ks[i].group) && (forall j in 0..i: !classical(ks[j].group)) ==> keyOfGroup(keys.ecdhe, ks[i].group)
+//@   requires later_classical: forall i in 0..len(ks): classical(ks[i].group) && (exists j in 0..i: classical(ks[j].group)) ==> has(hs.keyShareKeys.ecdheKeys, ks[i].group)
+//@   requires map_sound: forall g in 0..65536: has(hs.keyShareKeys.ecdheKeys, g) ==> hs.keyShareKeys.ecdheKeys[g] != nil && keyOfGroup(hs.keyShareKeys.ecdheKeys[g], g)
+//@   assume-pure NewEarlySecret HandshakeSecret ClientHandshakeTrafficSecret ServerHandshakeTrafficSecret MasterSecret writeKeyLog kyberDecapsulate Len
+//@   note assume-pure: the internal/tls13 key schedule only computes (through hash function values); writeKeyLog writes a line to Config.KeyLogWriter; kyberDecapsulate wraps mlkem decapsulation
+//@   at after call sendAlert#9: assume alert_frame: hs.suite == old(hs.suite) && c.config == old(c.config) && hs.hello == old(hs.hello)
+//@   note alert_frame: sendAlert#9 is the only alert after which the function continues (QUIC: unexpected_message when handshake bytes are left over); sendAlert writes record-layer state of the connection only, its trusted contract (verif_contracts_cert.go) has no frame
+//@   at before call getSharedKey#0: assert ecdhe_key: arg1 == ite(has(keys.ecdheKeys, grp), keys.ecdheKeys[grp], keys.ecdhe)
+//@   at before call getSharedKey#0: assert peer_classical: classical(grp) ==> arg0 == data
+//@   at before call getSharedKey#0: assert peer_mlkem: grp == X25519MLKEM768 ==> len(data) == 1088 + 32 && arg0 == data[1088:]
+//@   at before call getSharedKey#0: assert peer_kyber: grp == X25519Kyber768Draft00 ==> len(data) == 32 + 1088 && arg0 == data[:32]
+//@   at before call getSharedKey#0: assert ecdhe_key_of_group: classical(grp) ==> keyOfGroup(arg1, grp)
+//@   at before call getSharedKey#1: assert mlkem_x25519_key: grp == X25519MLKEM768 && byUtls && arg1 == keys.mlkemEcdhe && arg0 == data[1088:]
+//@   at before call Decapsulate#0: assert mlkem_key: grp == X25519MLKEM768 && arg0 == keys.mlkem && arg1 == data[:1088]
+//@   at before call getSharedKey#2: assert kyber_x25519_key: grp == X25519Kyber768Draft00 && byUtls && arg1 == keys.mlkemEcdhe && arg0 == data[:32]
+//@   at before call kyberDecapsulate#0: assert kyber_key: grp == X25519Kyber768Draft00 && arg0 == keys.mlkem && arg1 == data[32:]
+//@   ensures hybrid_utls_key: ret == nil && (grp == X25519MLKEM768 || grp == X25519Kyber768Draft00) && old(byUtls) ==> called(getSharedKey, 1) || called(getSharedKey, 2)
+//@   ensures hybrid_decaps: ret == nil && grp == X25519MLKEM768 ==> called(Decapsulate, 0)
+//@   ensures hybrid_decaps_kyber: ret == nil && grp == X25519Kyber768Draft00 ==> called(kyberDecapsulate, 0)
+//@   ensures classical_single: ret == nil && grp != X25519MLKEM768 && grp != X25519Kyber768Draft00 ==> called(getSharedKey, 0) && !called(getSharedKey, 1) && !called(getSharedKey, 2) && !called(Decapsulate, 0)
